@@ -263,9 +263,7 @@ class World(object):
             else:
                 raise ValueError(op)
             return 'ok'
-        except RecursionError:
-            raise
-        except Exception as e:
+        except Exception as e:     # includes RecursionError (a cyclic tree built by a broken library)
             self.last_exc = e
             return 'err ' + err_name(e)
 
@@ -350,7 +348,8 @@ def run_lockstep(chk, drv, attached, ops, per_step=None):
         lines.append('snap')
         impl.append(w.snapshot())
         if per_step is not None:
-            per_step(w, idx, op, a)
+            if per_step(w, idx, op, a):      # the oracle already has its failing input: stop here
+                break
     model = drv.batch(lines)
     diff = None
     for j, (x, y) in enumerate(zip(impl, model)):
